@@ -212,10 +212,12 @@ theorem injFile_balanced (base : Nat) (w : Tape.World) (src : Str) (hsrc : Clean
     · exact ⟨_, _, rfl, h, hmsg _⟩
     · split
       · exact ⟨_, _, rfl, h, hmsg _⟩
-      · obtain ⟨st', hst', hok, hbal⟩ := injWriteFile_balanced base fileName (dispatch fileName fileExtension extWithOption).2.2
-          (dispatch fileName fileExtension extWithOption).1 (dispatch fileName fileExtension extWithOption).2.1 data hname 4 st h hb
-        rw [hst']
-        exact ⟨_, _, rfl, hok, hbal⟩
+      · split
+        · exact ⟨_, _, rfl, h, hmsg _⟩
+        · obtain ⟨st', hst', hok, hbal⟩ := injWriteFile_balanced base fileName (dispatch fileName fileExtension extWithOption).2.2
+            (dispatch fileName fileExtension extWithOption).1 (dispatch fileName fileExtension extWithOption).2.1 data hname 4 st h hb
+          rw [hst']
+          exact ⟨_, _, rfl, hok, hbal⟩
 
 theorem injLoop_balanced (base : Nat) (w : Tape.World) : ∀ (srcs : List Str) (st : Inj), (∀ src ∈ srcs, CleanSrc src) → ImgOk st.img →
     Balanced base st → ∃ st', injLoop w srcs st = .ok st' ∧ ImgOk st'.img ∧ Balanced base st' := by
